@@ -20,6 +20,7 @@ Definition run (prop : list N) (case obs : sx) : sx :=
   else if bytes_eqb prop (sym_of_string "C07") then run_C07 case obs
   else if bytes_eqb prop (sym_of_string "C04") then run_C04 case obs
   else if bytes_eqb prop (sym_of_string "C11") then run_C11 case obs
+  else if bytes_eqb prop (sym_of_string "C14") then run_C14 case obs
   else if bytes_eqb prop (sym_of_string "C12") then run_hub case obs
   else if bytes_eqb prop (sym_of_string "C13") then run_hub case obs
   else if bytes_eqb prop (sym_of_string "C06") then run_C06 case obs
